@@ -272,8 +272,14 @@ def coerce_default_value(
     # variable signatures that reuse this function for fragment arguments.)
     default_input = input_value.default
     if default_input is not None:
-        coerced_value = default_input._memoized_coerced_value  # noqa: SLF001
-        if coerced_value is Undefined:
+        # The result depends on the type as well: the same default object may serve
+        # another type (after extending the schema, or as a shared constant), so it
+        # is memoized together with the type it was coerced for.
+        input_type = input_value.type
+        memoized = default_input._memoized_coerced_value  # noqa: SLF001
+        if memoized is not Undefined and memoized[0] is input_type:
+            coerced_value = memoized[1]
+        else:
             coerced_value = (
                 coerce_input_literal(default_input.literal, input_value.type)
                 if default_input.literal is not None
@@ -290,7 +296,10 @@ def coerce_default_value(
                     f" to be valid, found: {found}."
                 )
                 raise TypeError(msg)
-            default_input._memoized_coerced_value = coerced_value  # noqa: SLF001
+            default_input._memoized_coerced_value = (  # noqa: SLF001
+                input_type,
+                coerced_value,
+            )
         return coerced_value
 
     # The deprecated internal default value is used as is.
